@@ -179,6 +179,12 @@ def cursor_rule(P, r, fname, cursor_side):
                 continue
             delta = delta + (off.subst(a, Poly.atom(a) + step) - off); moving = True
         side = 'source' if cursor_side == 'src' else 'destination'
+        # the offset must be a recurrence: every atom is a header phi or loop-invariant.  `base + i*n` with n = this iteration's
+        # copy length is not the sum of the lengths copied so far
+        varying = [a for a in off.atoms() if a not in phis and not L.invariant(Poly.atom(a))]
+        if varying:
+            problems.append(f'the {side} position ({off}) is computed from {varying[0]}, which changes from one iteration to the next: '
+                            'it is not the running sum of the bytes copied so far')
         if not moving:
             problems.append(f'the {side} position ({C.val(used)[:60]}) does not advance with the loop')
         elif delta != npoly:
@@ -374,3 +380,4 @@ def run(ctx):
     cover.cover_rule(P, rk, 'region_xor', [0], 1, 2)
     cover.cover_rule(P, rk, 'region_multiply', [0], 1, 4)
     rk.require_min(3)
+    ctx.borrow('c04', ['R04a'], 'w = 16 keeps RS payloads even, so the odd trailing byte branch of region_multiply (8-bit truncation) stays dead')
